@@ -23,7 +23,7 @@ RULE = ("E1: ('wrap', recipient, key class, selector, form) = full product of 12
         "leading zero bytes. ('blockreuse', key, order) = ONE live block object packed in turn for two recipients of the same selector and with another session key; ('default', selector, key class) = no explicit recipient: the published keys are replaced by test keys (their SHA-256 digests "
         "are pinned against the source constants) and the block for selector s must open with private key s and no other. ('reject', kind, i) = "
         "(0,0), (x,y+-1), x>=p, y>=p, a secp256k1 point, 32 seed-derived 64-byte strings: EccDecryptor.decrypt must raise."
-        " Added: ('file', order, sel, position, sink) the ECC block taken out of whole written files for every header order with the recipient first / last in the caller's list; ('threads', pairing, direction) the packing of one block suspended at EVERY line event inside bec2format, the plug-in adapter and the key-agreement helper while another block is packed completely in a second thread - each block must open for its own recipient to its own session key.")
+        " Added: ('objhist', sequence over W/U/V, selector) = every history up to length 4 (5) on ONE EccDecryptor object used in both directions, each wrap opened independently; ('file', order, sel, position, sink) the ECC block taken out of whole written files for every header order with the recipient first / last in the caller's list; ('threads', pairing, direction) the packing of one block suspended at EVERY line event inside bec2format, the plug-in adapter and the key-agreement helper while another block is packed completely in a second thread - each block must open for its own recipient to its own session key.")
 ASSUMPTIONS = [
     "OpenSSL 3 CLI is the independent ECDH oracle; reference AES-CBC is cross-checked elsewhere (C16)",
     "the published recipient keys are identified by the SHA-256 digests of the constants at the pinned commit",
@@ -117,6 +117,15 @@ def cases(ctx):
         for order in ("AB", "BA", "AAB", "ABA"):
             yield ("blockreuse", ki, order)
     yield ("published",)
+    # histories on ONE live EccDecryptor object used in both directions (W = wrap a session key to itself as recipient, U/V =
+    # unwrap a block sent to it by someone else): every wrap must open for the recipient, every unwrap return the sent key -
+    # whatever the object did before
+    from itertools import product as _prod
+    for n in range(1, 5 if ctx.quick else 6):
+        for seq in _prod("WUV", repeat=n):
+            if "W" in seq:
+                for sel in (0, 2):
+                    yield ("objhist", "".join(seq), sel)
     # two callers in two threads: the packing of one block is suspended at EVERY line event inside bec2format, the plug-in's
     # adapter and the key-agreement helper while another block is packed completely; both blocks must open for their own
     # recipient to their own session key (state shared between the two calls would mix them up)
@@ -317,6 +326,34 @@ def run_case(ctx, case):
             return o.viol("eph|library-unwrap-raises|%s" % cls, "library decryptor raised %r for ephemeral class %s" % (ex, cls))
         if sk != key:
             o.viol("eph|library-unwrap|%s" % cls, "library decryptor returns a different key for ephemeral class %s" % cls)
+        return o
+    if kind == "objhist":
+        _, seq, sel = case
+        d = scalars(ctx)[6]
+        priv = FX.priv_key(d)
+        obj = EccDecryptor(sel, priv)
+        sender = EccEncryptor(sel, FX.priv_key(d).public_key)
+        sent = {}
+        for name, ki in (("U", 0), ("V", 2)):
+            with DetRandom("c09-objhist-sent-%s" % name):
+                sent[name] = (InitEccAuthBlock(sel).pack(key_of(ctx, ki), [sender]), key_of(ctx, ki))
+        for step, op in enumerate(seq):
+            if op == "W":
+                k = key_of(ctx, 1 + step % 4)
+                with DetRandom("c09-objhist-%r-%d" % (case, step)):
+                    raw = InitEccAuthBlock(sel).pack(k, [obj])
+                check_block(o, raw, sel, k, d, "wrap #%d of history %s on one EccDecryptor object" % (step, seq))
+                if o.viols:
+                    o.viols = [("objhist|" + fp, m, dd) for fp, m, dd in o.viols]
+                    return o
+            else:
+                blk, k = sent[op]
+                try:
+                    got = InitEccAuthBlock.unpack(blk, [obj])[1]
+                except Exception as ex:
+                    return o.viol("objhist|unwrap-raises", "unwrap #%d of history %s raised %r" % (step, seq, ex))
+                if got != k:
+                    return o.viol("objhist|unwrap", "unwrap #%d of history %s on one EccDecryptor object returns a wrong key" % (step, seq))
         return o
     if kind == "blockreuse":
         _, ki, order = case
